@@ -31,7 +31,7 @@ class RealFloat___gt__(Contract):
 
     def post(self, other, result):
         G = ghost('grid', 0)
-        return {'grid': forks(self._exp <= other._exp, self._s, other._s, self._c == 0, other._c == 0)
+        return {'grid': case_split(self._exp <= other._exp, self._s, other._s, self._c == 0, other._c == 0)
                 and implies(G <= self._exp and G <= other._exp, result == (Zr(self, G) > Zr(other, G)))}
 
     def raises(self, other):
@@ -49,7 +49,7 @@ class RealFloat___lt__(Contract):
 
     def post(self, other, result):
         G = ghost('grid', 0)
-        return {'grid': forks(self._exp <= other._exp, self._s, other._s, self._c == 0, other._c == 0)
+        return {'grid': case_split(self._exp <= other._exp, self._s, other._s, self._c == 0, other._c == 0)
                 and implies(G <= self._exp and G <= other._exp, result == (Zr(self, G) < Zr(other, G)))}
 
     def raises(self, other):
@@ -67,7 +67,7 @@ class RealFloat___ge__(Contract):
 
     def post(self, other, result):
         G = ghost('grid', 0)
-        return {'grid': forks(self._exp <= other._exp, self._s, other._s, self._c == 0, other._c == 0)
+        return {'grid': case_split(self._exp <= other._exp, self._s, other._s, self._c == 0, other._c == 0)
                 and implies(G <= self._exp and G <= other._exp, result == (Zr(self, G) >= Zr(other, G)))}
 
     def raises(self, other):
@@ -85,7 +85,7 @@ class RealFloat___le__(Contract):
 
     def post(self, other, result):
         G = ghost('grid', 0)
-        return {'grid': forks(self._exp <= other._exp, self._s, other._s, self._c == 0, other._c == 0)
+        return {'grid': case_split(self._exp <= other._exp, self._s, other._s, self._c == 0, other._c == 0)
                 and implies(G <= self._exp and G <= other._exp, result == (Zr(self, G) <= Zr(other, G)))}
 
     def raises(self, other):
